@@ -268,13 +268,23 @@ def rand_graph_dict(rng, vs, ls, pkey=0.8, pedge=0.5, hidden=True):
     return gd
 
 
+def rand_starts(rng, vs):
+    """usually one start vertex, sometimes none or several (possibly repeated)"""
+    r = rng.random()
+    if r < 0.7:
+        return [vs[0]]
+    if r < 0.78:
+        return []
+    return [rng.choice(vs) for _ in range(rng.choice([2, 2, 3]))]
+
+
 def rand_init(rng, vs=None, ls=None):
     vs = vs or VS[:rng.choice([1, 2, 3, 3, 4])]
     ls = ls or LS[:rng.choice([1, 2, 2, 3])]
     r = rng.random()
     if r < 0.45:
         gd = rand_graph_dict(rng, vs, ls)
-        return {"route": "graph", "d": gd, "starts": [vs[0]]}
+        return {"route": "graph", "d": gd, "starts": rand_starts(rng, vs)}
     if r < 0.75:
         gd = rand_graph_dict(rng, vs, ls, pkey=1.0, hidden=False)
         od = []
@@ -284,9 +294,9 @@ def rand_init(rng, vs=None, ls=None):
                 row.setdefault(w, []).append(l)
             od.append([v, [[w, lab] for w, lab in row.items()]])
         rng.shuffle(od)
-        return {"route": "out", "d": od, "starts": [vs[0]]}
+        return {"route": "out", "d": od, "starts": rand_starts(rng, vs)}
     if r < 0.82:
-        return {"route": "empty", "starts": [vs[0]]}
+        return {"route": "empty", "starts": rand_starts(rng, vs)}
     if r < 0.9:
         return {"route": "free", "gens": rng.sample(["a", "b", "c"], rng.choice([1, 2, 2, 3]))}
     n = rng.choice([1, 2, 3, 4])
